@@ -359,6 +359,16 @@ func Bound(quick, thorough int) int {
 	return quick
 }
 
+// TempPath returns a private file name for the harness: natively a name under
+// the temporary directory that is unique to this process and does not exist
+// (an earlier file of that name is removed); under the symbolic executor a
+// name in the path's own in-memory file model (see engine/sx/intrinsics_os.go).
+func TempPath(name string) string {
+	p := os.TempDir() + "/zzverif-" + strconv.Itoa(os.Getpid()) + "-" + name
+	_ = os.Remove(p)
+	return p
+}
+
 // ---------------------------------------------------------------------------
 // Native cooperative scheduler (schedule replay).
 //
